@@ -69,6 +69,10 @@ def run_item(item):
             l = balanced_escapes(rng, 'x' + t)
             if rng.random() < 0.2:
                 l = l + E + '[36m tail\r' + E + '[m'       # (CR before the closing sequence, as for a CRLF file)
+            if rng.random() < 0.25:
+                k = rng.randrange(len(l) + 1)
+                if E not in l[max(0, k - 12):k + 1] or l[:k].endswith(('m', '\\', '\x07')):
+                    l = l[:k] + '\udcff' + l[k:]             # a byte that is not valid UTF-8 (between two sequences, not inside one)
             lines.append(l)
         case = dict(case)
         case['kind'] = 'text-with-escapes'
@@ -108,7 +112,7 @@ def run_item(item):
     size = (24, rng.choice([40, 77, 80, 120]))
     if mode == 'pty' and '--dark' not in opts and '--light' not in opts:
         opts['--dark'] = True
-    data = ('\n'.join(lines) + '\n').encode()
+    data = ('\n'.join(lines) + '\n').encode('utf-8', 'surrogateescape')
     res = runner.run_delta(gen.to_args(opts), data, mode=mode, pty_size=size, **workload.parent_kw(case))
     c = crash_outcome(res, ID)
     if c is not None:
